@@ -34,9 +34,14 @@ def scenario(ctx, i, kind=None):
     labels = np.concatenate([np.arange(K), r.integers(0, K, n - K)])
     labels = labels[r.permutation(n)]
     sts = [fagen.rand_stat(r, sc["C"], sc["D"], sc["m"], sc["v"]) for _ in range(n)]
-    for s in sts:
+    for k, s in enumerate(sts):
         s["n"] = np.maximum(s["n"], 0.05)
         s["s"] = (np.asarray(sc["v"]) + (np.asarray(s["f"]) / s["n"][:, None]) ** 2) * s["n"][:, None]
+        if k > 0 and sc["C"] >= 2 and r.random() < 0.4:  # a statistic in which one component saw nothing (hard / pruned posteriors)
+            c0 = int(r.integers(0, sc["C"]))
+            s["n"][c0] = 0.0
+            s["f"][c0] = 0.0
+            s["s"][c0] = 0.0
     sc.update(kind=kind, labels=[int(a) for a in labels], K=K, stats=sts, nparts=int(r.integers(1, n + 1)), iters=int(r.integers(1, 3)), R=int(r.integers(1, 3)), seed=int(r.integers(0, 10**6)))
     return sc
 
